@@ -4,6 +4,12 @@ import json, subprocess
 
 CHECKS = {
  # id: (level, engine, technique, text, note, design_ref)
+ "C01": ("model_checking", "E1", "explicit-state search (own parallel BFS; stateright selectable) over edit histories of labelled template repositories; real git diff in every state; diff-relative oracle from line labels known by construction",
+         "7 templates (siblings, cross-file Markdown/HTML, nested, Rust multi-line tag in a 3-line comment, cycle + duplicate names + missing target + unnamed, repeated/blank lines, diff-syntax payload without trailing newline); every history of ≤2 (thorough ≤3) line insertions/deletions/replacements and tag-line edits, states merged by resulting contents; `git diff -U{0,1,3}` (thorough 0..10) fed to the real code in diff and diff+glob mode; L1 must/must-not/don't-care content flags from the labels of the diff's -/+ lines, L2 affects diagnostics from the observed flags (same-file, cross-file, comma lists, cycles, duplicates, missing targets), L3 exit status; plus worktree/--cached/commit-to-commit/rename -M diffs of all depth-≤1 (≤2) states through the CLI in real repositories",
+         "git 2.39 trusted to print the diff; three genuine defects are recorded as known findings (two pinned by the repository's own tests, one in the third-party unidiff crate)", "§2 C01"),
+ "C02": ("model_checking", "E1", "explicit-state search (own parallel BFS) over edit histories incl. character-level tag-line edits; real git diff; per-block edit classification fixes selection and content flag; verdicts compared with a full scan of the same tree",
+         "5 rule-carrying templates (Python over two files, JS with content on the tag's line and a multi-byte character before the tag, JS tag on line 2 of a 3-line comment, Markdown, nested); every history of ≤2 (thorough ≤3) whole-line edits and 10 kinds of character-level tag edits (inside/outside the `<`…`>` span, end-tag comment, same-line content); `git diff -U{0,3}` (thorough 0,1,3,10) without path argument, with `**` and with one file as path argument; selected set, is_content_modified and every selected block's diagnostics vs the full scan",
+         "lines pairwise distinct so git's diff equals the edit script; whole-line edits adjoining a tag line are don't-care; same known findings as C01", "§2 C02"),
  "C03": ("model_checking", "E1", "explicit-state search (stateright BFS) over construction-kit segment sequences per grammar; real parser executed in every state against blocks known by construction",
          "for each of the 23 grammars (all 39 registered suffixes): every sequence of ≤3 (thorough ≤4) segments — code, string/markup decoys holding tag text, plain comments, start/end tags at every offset of 1- and 3-line comments of every comment form (line, block, doc, decorated, Markdown link-reference with all three title delimiters, HTML/XML), two tags per comment — closed into a balanced file, rendered LF and CRLF, with ASCII and multi-byte text around tags; attributes, line/byte column of `<`, exact content, pairing and source order compared with the construction",
          "tree-sitter grammars trusted on the kits' well-formed scaffolds (kit self-test); one leading line terminator of a content is don't-care; bounded scope", "§2 C03"),
